@@ -1,7 +1,13 @@
 use crate::errors::PriceLevelError;
 use crate::orders::{OrderId, OrderType};
+#[cfg(not(feature = "verif"))]
 use crossbeam::queue::SegQueue;
+#[cfg(feature = "verif")]
+use crate::verif::queue::SegQueue;
+#[cfg(not(feature = "verif"))]
 use dashmap::DashMap;
+#[cfg(feature = "verif")]
+use crate::verif::map::DashMap;
 use serde::de::{SeqAccess, Visitor};
 use serde::ser::SerializeSeq;
 use serde::{Deserialize, Deserializer, Serialize, Serializer};
